@@ -103,6 +103,58 @@ CLAIMED = {
         "SARIF line = range start; SARIF negative snippet index; XML control characters) are reported as KNOWN-FINDING in narrow regions."),
   technique="Lean 4 proof over hand model of the formatters' own logic + parse-back correspondence through output_results (translator for the HTML templates)",
   design="DESIGN.md section 7 C09"),
+ "C04": dict(
+  text=("Lean theorems over the hand-written model of BanditManager.run_tests/_parse_file/_execute_ast_visitor and the tester's try/except (lean/Bandit/Manager.lean: per-file steps "
+        "open/read/tokenise/parse/visit each with an arbitrary exception value, both try/except ladders verbatim incl. the stdin rename, list.remove, skipped.append, commit after a completed visit, "
+        "scores/metrics bookkeeping), proved for ALL file lists and ALL outcome assignments by induction (lean/Props/C04.lean): report_total (no exception leaves the run, aggregate reached), "
+        "accounting / accounting_plain (scanned ++ skipped is a permutation of the discovered files), accounted_once + scanned_not_skipped, skipped_has_reason, isolation (every position), "
+        "isolation_outcomes (every outcome of the other files), healthy_findings, no_findings_from_skipped, scores_aligned, interrupt_exits_2, ladder-arm facts, "
+        "report_produced_partial + NEG_stdin_excerpt_not_utf8 (kernel-checked witness of the known stdin-excerpt defect). PARTIAL: the theorems assume every failure is an Exception subclass "
+        "(hypothesis Spec.ordinary); that CPython behaves so on arbitrary bytes / nesting / I/O faults (no segfault, no C-stack overflow) is explored, not proved. Tie to /repo on every run: exhaustive fault "
+        "enumeration (N in {2,3,4} healthy files x every position x 43 fault kinds at open/read/readline/tokenise/parse/check/visitor, x nosec/debug variants; faults injected by filesystem changes after "
+        "discovery or by patching builtins.open / one plugin / the visitor in the harness process), stdin scenarios, and a seeded byte-level fuzz stream (in-process batches; deep-nesting and huge inputs in a "
+        "subprocess so that an interpreter crash is observed); each run is compared with the compiled Lean model (files_list, skipped names+reasons, per-file findings, scores, metrics blocks, JSON errors) "
+        "and with the spec oracle evaluated on the implementation (partition via the Lean Spec predicates, healthy files' findings identical to scanning them alone, report produced)."),
+  technique="Lean 4 proof over hand model (induction over file lists / outcome assignments) + exhaustive fault-injection correspondence + seeded byte fuzz",
+  design="DESIGN.md section 7 C04"),
+ "C13": dict(
+  text=("Lean theorems over the hand-written model of bandit's configuration plumbing (lean/Bandit/ConfigLoad.lean: BanditConfig.__init__ with validate-before-isinstance and Python's `in` per value type, "
+        "get_option, legacy profile conversion, parse_ini_file result + _log_option_source merge, _get_profile, -t/-s union, validate_profile, _get_filter, _load_tests settings lookup, generator), "
+        "lean/Props/C13.lean: carrier_equiv (for ALL selections of canonically spelled IDs, all worlds with ordinary plugin keys, all targets: the YAML document, the TOML [tool.bandit] document, the INI section and the -t/-s flags "
+        "each lead to Spec.selectionOutcome, hence to the same outcome), selection_merges (include = config tests U flag tests, exclude likewise), settings_local / settings_replace / settings_local_table / no_block_means_defaults "
+        "(a block for key k replaces k's default wholesale and changes no other key, for arbitrary configs), generator_neutral + generator_neutral_run + gen_defaults_plain (decide +kernel over the tables regenerated from /repo: "
+        "the generator's document gives every plugin its default and an empty selection; the whole run equals the run without -c), ini_fills_defaults / precedence_cli_tests / precedence_cli_skips / precedence_rules "
+        "(INI = the command line that spells the same options; a given CLI value wins; the 'CLI value equal to default loses to INI' corner), reject_table_partial (unreadable | unparsable | non-mapping => exit 2, under the guard "
+        "'parser result is a str/list not mentioning profiles; TOML is UTF-8 and tool is a table'), reject_unknown_profile, reject_contradictory, and six kernel-checked NEG_ witnesses of the three known findings "
+        "(empty/scalar/'profiles'-string config, TOML tool not a table, undecodable TOML, INI level) which the harness replays on the real code. The fixed-code variant (Bandit.ConfigLoad.Fixed, Bandit/Proofs/C13Fixed.lean) proves the "
+        "rejection table without guard. Tie to /repo on every run: Gen.Defaults/Registry/Constants regenerated; ~890 (quick) / ~6000 (thorough) runs of bandit.cli.main.main() and bandit-config-generator: one abstract "
+        "config through YAML/TOML/INI(--ini and auto-discovered)/CLI/generator/legacy-profile carriers and split over carriers, exclude patterns on a tree, per-plugin blocks (tmp_dirs, shell lists, key-size thresholds, "
+        "check_typed_exception, assert skips), malformed stream (shape tables + seeded non-mappings; missing/dir/unreadable via patched open), each compared with the compiled Lean model (outcome kind, crash class, scanned files, findings) "
+        "and judged by spec oracles on the implementation's own output (pairwise carrier equality, locality, generator neutrality, exit 2 + diagnostic + no traceback). Proof is the right level because the property quantifies over all "
+        "configurations; the finite shape tables are enumerated exhaustively. NOTE: the three defects named above were repaired in /repo (fix: commits d27fc84, 259b80f, da9ae97); the correspondence now runs against the model of the repaired code (lean/Bandit/ConfigLoadFixed.lean, theorems Fixed.reject_table (no guard), Fixed.former_witnesses_rejected, Fixed.ini_level_as_cli audited with C13); the NEG_ witnesses document the pinned commit."),
+  technique="Lean 4 proof over hand model of config/CLI plumbing + carrier-equivalence correspondence through the real CLI (translator for defaults/registry)",
+  design="DESIGN.md section 7 C13"),
+ "C11": dict(
+  text=("Lean theorems over a hand model of discover_files/_get_files_from_dir/_is_file_included on an explicit filesystem value (tree of dirs, files, symlinked dirs + cwd; os.path.isdir/join and "
+        "os.walk(followlinks=False) as functions of it) and a transcription of CPython fnmatch (lean/Props/C11.lean): partition / walk_partition / partition_exhaustive / overlap_only_from_explicit_target "
+        "(walked = files + excluded, disjoint, exhaustive, duplicate-free, for ALL trees, cwds, targets, configs, -x strings), no_descent_without_r, glob facts ('*' matches all, a literal matches itself, "
+        "'*.py' iff suffix, name-reading = path-reading for '*.ext' includes) in full; predicate_spec_partial, walked_scanned_iff_spec_partial, explicit_any_extension, explicit_excluded are PARTIAL under the "
+        "guard 'no -x entry names an existing directory relative to cwd', with the kernel-checked witness NEG_default_exclude_in_cwd (bandit -r . at a repo root scans ./.git/**.py; open known finding "
+        "C11-exclude-dir-in-cwd, narrow region = paths lost by the isdir => 'p/*' rewrite). Tie to /repo on every run: Lean fnmatch vs CPython fnmatch on all patterns of length <= 4 (thorough 5) over the "
+        "metacharacter alphabet + class/range/negation/unclosed/newline patterns; real temporary trees (VCS/cache/hidden/egg dirs, extension mix, symlinks, dangling links) x cwd in {root,parent,sibling,subdir} x 9 "
+        "target spellings x -x strings x YAML exclude_dirs/include, real BanditManager.discover_files and full CLI runs vs the compiled Lean model and vs an independent spec oracle."),
+  technique="Lean 4 proof over hand model + correspondence on real temp trees (fnmatch transcription checked against CPython)",
+  design="DESIGN.md section 7 C11"),
+ "C16": dict(
+  text=("Lean theorems (lean/Props/C16.lean): b103_mode_table — for EVERY natural number mode the bit test of _stat_is_dangerous equals the documented rule (group/world write or execute; HIGH iff "
+        "world-writable), proved by reduction to the low six bits + kernel enumeration, and b103_all_4096 (all twelve-bit modes by decide +kernel); re_candidates_source_known (the hand matcher stands for "
+        "exactly the RE_CANDIDATES source regenerated from /repo) and candidate_examples; b104_iff, b108_iff (configured or default directories), docstring_exempt / string_dispatched (a string whose parent is "
+        "an expression statement is never offered to a check; otherwise it is checked with its parent's line range), b105_assign, b106_fires / b106_silent (first matching keyword with a string literal), "
+        "gen_tmp_dirs_cover_published. The positional-only misattribution of B107 in the pinned commit was repaired (fix: commit 2542a3e) and the model follows. Correspondence on every run: 37 identifiers "
+        "(matching / near-matching / case variants) x string literals x the five positions (+ positional-only parameters, non-literal values, docstrings), chmod modes (quick: boundary set + 256 seeded; thorough: "
+        "all 4096) in three spellings, a user temp-dir configuration, the quoted literal in the message, and 4000 (thorough 20000) generated identifiers through RE_CANDIDATES vs the documented regex vs the Lean matcher."),
+  technique="Lean 4 proof (bit-level table for all naturals, decision lemmas) + differential correspondence",
+  design="DESIGN.md section 7 C16"),
 }
 
 REASON_PENDING = "check not built yet (work in progress; DESIGN.md section 11 gives the build order)"
